@@ -5,7 +5,7 @@ import json, os
 import vlib
 
 
-def run(verdict, wd, plans, seed, workers=6, maxsteps=3000):
+def run(verdict, wd, plans, seed, workers=8, maxsteps=3000):
     """plans: list of (kind, sessions).  Adds violations to verdict; returns a coverage dict."""
     cov = {'machine_sessions': 0, 'machine_forms': 0, 'machine_instructions': 0, 'machine_out_of_model': 0,
            'machine_mismatches': 0, 'machine_tlc_states': 0}
@@ -23,7 +23,7 @@ def run(verdict, wd, plans, seed, workers=6, maxsteps=3000):
         if n == 0:
             continue
         r = vlib.tlc('Trace_Machine', 'Trace_Machine.cfg', os.path.join(wd, 'machmeta%d' % i), env={'TRACE': out},
-                     workers=workers, timeout=2400, heap='8g')
+                     workers=workers, timeout=7200, heap='8g')
         if r.rc != 0:
             vlib.log(r.tail)
             raise vlib.ToolError('Trace_Machine failed (rc=%d)' % r.rc)
